@@ -117,6 +117,19 @@ class AnnotationFamily(Family):
         else:
             c.add(op)
         got = judge(res, case, c, 'as built')
+        if nested:
+            # the annotation inside a block with count 2 must be exported exactly as the annotation itself, twice
+            # (the block is a copy: a copy that loses a field changes which measurements the annotation points at)
+            flat = DeclarativeCircuit()
+            for q in (0, 1, 0, 1):
+                flat.add(co.DispersiveMeasure(q, acquisition_strategy=flat.get_acquisition_strategy()))
+            flat.add(op)
+            single = expand(to_stim(flat))
+            want_nested = []
+            for g in single:
+                want_nested.extend([g] if g[0] == 'M' else [g, g])
+            if got != want_nested:
+                res.fail('C08-nested-annotation', 'annotation %r: exported inside a repeated block as %r, alone as %r' % (a, got, single))
         un = c.apply_modifiers()
         got2 = judge(res, case, un, 'unrolled')
         if got != got2:
